@@ -723,3 +723,84 @@
         }
     }
 
+
+    // ================================================================================== F-OOC: out-of-contract arguments (C13 clause i)
+    // The contract-panic site of the method is the only check allowed to fail; the call must not return; every
+    // memory-safety / overflow check must hold for the whole out-of-contract region (symbolic over all of usize).
+    macro_rules! ooc {
+        ($name:ident, |$b:ident, $g:ident| $body:block) => {
+            #[kani::proof]
+            #[kani::unwind(6)]
+            pub fn $name() {
+                unsafe {
+                    let (mut $b, $g) = st_shared(&SHARED_VTABLE);
+                    end_reached!();
+                    $body;
+                    assert!(false, "RETURNED: out-of-contract call returned");
+                }
+            }
+        };
+    }
+    // @h props=C13,C02 tier=quick group=ooc allow=(placeholder.message|assertion.failed).*in.function.bytes::Bytes::slice must_fail=in.function.bytes::Bytes::slice note=Bytes::slice(begin>end_or_end>len)
+    ooc!(ooc_slice, |b, g| {
+        let x: usize = kani::any();
+        let y: usize = kani::any();
+        kani::assume(x > y || y > g.len);
+        let _ = b.slice(x..y);
+    });
+    // @h props=C13,C02 tier=quick group=ooc allow=(placeholder.message|assertion.failed|out.of.range).*in.function must_fail=. note=Bytes::slice(..=usize::MAX)
+    ooc!(ooc_slice_inclusive_max, |b, g| {
+        let x: usize = kani::any();
+        let _ = b.slice(x..=usize::MAX);
+    });
+    // @h props=C13,C02 tier=quick group=ooc allow=(placeholder.message|assertion.failed).*in.function.bytes::Bytes::split_off must_fail=in.function.bytes::Bytes::split_off note=Bytes::split_off(at>len)
+    ooc!(ooc_split_off, |b, g| {
+        let at: usize = kani::any();
+        kani::assume(at > g.len);
+        let _ = b.split_off(at);
+    });
+    // @h props=C13,C02 tier=quick group=ooc allow=(placeholder.message|assertion.failed).*in.function.bytes::Bytes::split_to must_fail=in.function.bytes::Bytes::split_to note=Bytes::split_to(at>len)
+    ooc!(ooc_split_to, |b, g| {
+        let at: usize = kani::any();
+        kani::assume(at > g.len);
+        let _ = b.split_to(at);
+    });
+    // @h props=C13,C02 tier=quick group=ooc allow=(placeholder.message|assertion.failed).*in.function.<bytes::Bytes.as.buf::buf_impl::Buf>::advance must_fail=advance note=Bytes::advance(n>len)
+    ooc!(ooc_advance, |b, g| {
+        let n: usize = kani::any();
+        kani::assume(n > g.len);
+        b.advance(n);
+    });
+    // @h props=C13,C02 tier=quick group=ooc allow=(placeholder.message|assertion.failed).*in.function.bytes::Bytes::slice_ref must_fail=in.function.bytes::Bytes::slice_ref note=Bytes::slice_ref(foreign_or_overhanging_slice)
+    ooc!(ooc_slice_ref, |b, g| {
+        // a non-empty sub-slice of the SAME allocation that is not inside the view (before it, behind it or
+        // overhanging), or a slice of a different allocation
+        let foreign: bool = kani::any();
+        let other = [1u8, 2, 3, 4];
+        if foreign {
+            let _ = b.slice_ref(&other[1..3]);
+        } else {
+            let o: usize = kani::any();
+            let l: usize = kani::any();
+            kani::assume(o <= CAP && l >= 1 && l <= CAP - o);
+            kani::assume(o < g.off || o + l > g.off + g.len);
+            let s = core::slice::from_raw_parts(g.buf.add(o) as *const u8, l);
+            let _ = b.slice_ref(s);
+        }
+    });
+
+    // @h props=C13,C01 tier=quick flags=leak group=ooc note=documented_no-ops:truncate_beyond_len_leaves_the_handle_bit-identical
+    #[kani::proof]
+    #[kani::unwind(6)]
+    pub fn noop_truncate() {
+        unsafe {
+            let (mut b, g) = st_shared(&SHARED_VTABLE);
+            let n: usize = kani::any();
+            kani::assume(n >= g.len);
+            let (p, l, d) = (b.ptr, b.len, b.data.load(Ordering::Relaxed));
+            b.truncate(n);
+            assert!(b.ptr == p && b.len == l && b.data.load(Ordering::Relaxed) == d && cnt(&g) == g.r);
+            set_cnt(&g, 1);
+            end_reached!();
+        }
+    }
